@@ -206,8 +206,8 @@ Proof.
   - unfold of_chown. prologue_ok Hf. crush I.
   - unfold of_chdir. prologue_ok Hf. crush I.
   - unfold f_close, closed_err. crush I.
-  - unfold of_read_dir. prologue_ok Hf. all: unfold o_batch; crush I.
-  - unfold of_readdirnames. prologue_ok Hf. all: unfold o_batch; crush I.
+  - unfold of_read_dir, o_dir_read. prologue_ok Hf. all: unfold dir_batch; crush I.
+  - unfold of_readdirnames, o_dir_read. prologue_ok Hf. all: unfold dir_batch; crush I.
 Qed.
 
 (* ---- the heap never shrinks, so open handles keep pointing at nodes ---------------------------------------- *)
@@ -426,8 +426,8 @@ Proof.
   - unfold of_read, o_prologue. repeat match goal with |- context [match ?x with _ => _ end] => destruct x eqn:? end; cbn [fst snd hd_node o_set_at o_set_dir]; try reflexivity; try assumption; try congruence.
   - unfold of_write, o_prologue. repeat match goal with |- context [match ?x with _ => _ end] => destruct x eqn:? end; cbn [fst snd hd_node o_set_at o_set_dir]; try reflexivity; try assumption; try congruence.
   - unfold of_seek, o_prologue. repeat match goal with |- context [match ?x with _ => _ end] => destruct x eqn:? end; cbn [fst snd hd_node o_set_at o_set_dir]; try reflexivity; try assumption; try congruence.
-  - unfold of_read_dir, o_prologue, o_batch. repeat match goal with |- context [match ?x with _ => _ end] => destruct x eqn:? end; cbn [fst snd hd_node o_set_at o_set_dir]; try reflexivity; try assumption; try congruence.
-  - unfold of_readdirnames, o_prologue, o_batch. repeat match goal with |- context [match ?x with _ => _ end] => destruct x eqn:? end; cbn [fst snd hd_node o_set_at o_set_dir]; try reflexivity; try assumption; try congruence.
+  - unfold of_read_dir, o_dir_read, o_prologue, dir_batch. repeat match goal with |- context [match ?x with _ => _ end] => destruct x eqn:? end; cbn [fst snd hd_node o_set_at o_set_dir]; try reflexivity; try assumption; try congruence.
+  - unfold of_readdirnames, o_dir_read, o_prologue, dir_batch. repeat match goal with |- context [match ?x with _ => _ end] => destruct x eqn:? end; cbn [fst snd hd_node o_set_at o_set_dir]; try reflexivity; try assumption; try congruence.
 Qed.
 
 Lemma handles_ok_step w c : handles_ok w -> handles_ok (fst (ostep w c)).
